@@ -40,6 +40,8 @@ func c04(w *core.World, r *core.Report) {
 	ruleRecoverFrames(w, r)
 	r.Rule("R04.9", "every reply of a pipelined expanded entry is checked in the iteration that received it", 1)
 	ruleReplyErrorsChecked(w, r)
+	r.Rule("R20.13", "the key-exists policy the replay switches on is one of the three words it knows: with any other spelling a BUSYKEY answer matches no case, the entry is not applied and the replay reports success (shared with C20)", 1)
+	rulePolicyValueNormalised(w, r)
 	r.Rule("R04.10", "the bidirectional snapshot builders never answer 'nothing to replay' (or success) on a path that has seen an expansion, probe or capture error", 2)
 	ruleBuildersSurfaceErrors(w, r)
 	r.Rule("R03.6", "every replay path of an entry, the 'Bad data format' fallback included, hands the target's error up (shared with C03)", 3)
